@@ -56,9 +56,13 @@ BASE = ('import sys\n'
         '    if mode == "replace-sleep":\n        import time\n        time.sleep = lambda s: None\n        return 3\n'
         '    if mode == "import-json":\n        import colorsys, wave, sunau\n        return len(colorsys.__name__)\n'
         '    if mode == "recursion":\n        return finish(mode)\n'
+        '    if mode == "timeout-error":\n        raise TimeoutError("the student says time is up")\n'
+        '    if mode == "bdb-quit":\n        import bdb\n        raise bdb.BdbQuit("student")\n'
+        '    if mode == "interrupt-main":\n        import _thread\n        _thread.interrupt_main()\n        for _ in range(10 ** 7):\n            pass\n        return 8\n'
         '    return 0\n')
 MODES = ['normal', 'value-error', 'key-error', 'bad-str', 'system-exit', 'keyboard-interrupt', 'generator-exit', 'base-exception',
-         'busy-loop', 'block-forever', 'replace-stdout', 'replace-sleep', 'import-json', 'recursion', 'close-stdout', 'close-stdout-then-print', 'rebind-module', 'reimport-module']
+         'busy-loop', 'block-forever', 'replace-stdout', 'replace-sleep', 'import-json', 'recursion', 'close-stdout', 'close-stdout-then-print', 'rebind-module', 'reimport-module',
+         'timeout-error', 'bdb-quit', 'interrupt-main']
 ABNORMAL = set(MODES) - {'normal', 'import-json'}
 ENTRIES = ['run', 'call', 'evaluate', 'import', 'nested']
 # "pedal itself failed while recording": one of the sandbox's own recording steps raises once during the execution
@@ -107,13 +111,13 @@ class ChildState:
         self.sb.threaded = False
         self.base_modules = dict(sys.modules)
 
-    def quiesce(self):
+    def quiesce(self, patient=True):
         import threading
-        deadline = time.time() + 3
+        deadline = time.time() + 12      # (an abandoned thread under the coverage tracer needs a while to unwind on a loaded machine)
         waited = self.__dict__.setdefault('_waited', set())
         for t in list(threading.enumerate()):
             if t is not threading.current_thread() and type(t).__name__ == 'InterruptableThread' and t.ident not in waited:
-                t.join(max(0.0, min(deadline - time.time(), 1.0)))
+                t.join(max(0.0, min(deadline - time.time(), 6.0 if patient else 1.0)))      # (a thread waiting on a lock never comes back)
                 if t.is_alive():
                     waited.add(t.ident)     # blocked for good (uninterruptible): do not wait for it again
 
@@ -278,7 +282,7 @@ class ChildState:
         finally:
             for name in FAULTS:
                 sb.__dict__.pop(name, None)
-        self.quiesce()
+        self.quiesce(patient=not (kind == 'exec' and op.get('mode') == 'block-forever'))
         if kind == 'exec' and op.get('mode') == 'recursion' and self.base_trace is not None and sys.gettrace() is None:
             # CPython itself removes a Python-level trace function that fails, and at the recursion limit calling it fails: not pedal's doing
             self.base_trace = None
